@@ -518,6 +518,10 @@ pub fn run(seed: u64, count: usize, tier: &str, sink: &mut Sink) {
             run_dedup(sink, &t, &[0]);
         }
     }
+    for t in crate::scope_names::corpus() {
+        sink.stat("layout.corpus-names");
+        run_queries(sink, &t, None, QUERY_OPS);
+    }
     if tier == "thorough" {
         let full = level_alphabet(&[0, 2, 3], &NSS, 2);
         exhaustive(sink, 1, &full);
@@ -544,5 +548,13 @@ pub fn run(seed: u64, count: usize, tier: &str, sink: &mut Sink) {
             sink.stat("dedup.inner-node");
             run_dedup(sink, &t, &p);
         }
+    }
+    // directed layouts for the qualified-name rules (scope_names.rs); a stream of their own, so
+    // that the random layouts above do not depend on them
+    let mut rng = Rng::new(seed ^ 0xC09_F1);
+    for i in 0..count / 3 {
+        let t = if i % 2 == 0 { crate::scope_names::gen_attr_shape(&mut rng) } else { crate::scope_names::gen_elem_shape(&mut rng) };
+        sink.stat(if i % 2 == 0 { "layout.directed.attribute" } else { "layout.directed.no-namespace-element" });
+        run_queries(sink, &t, None, QUERY_OPS);
     }
 }
